@@ -123,12 +123,13 @@ NoIgnoreIsComponents(L) ==
     \A v \in Vars : L[v] = UNION {tg[s] : s \in {s \in Vars \ rdn : <<s, v>> \in cc}}
 
 (***************************************************************************)
-(* The implementation's algorithm as a model (NOT the specification):      *)
-(* the propagation graph has a vertex per axis variable and per tag, an    *)
-(* edge per equation and per (array axis, tag it carries); for each tag,   *)
-(* every vertex reachable from the tag's vertex without entering an        *)
-(* ignored array axis gets the tag.  Reduction descriptors contribute no   *)
-(* tag edges and are never excluded.                                       *)
+(* A DOCUMENTED NEGATIVE EXAMPLE, not the specification: the algorithm of   *)
+(* unify_axes_tags as it was before /repo commit 74f77a7 (finding X01-F1). *)
+(* There, the propagation graph has a vertex per axis variable and per    *)
+(* tag, an edge per equation and per (array axis, tag it carries); for     *)
+(* each tag, every vertex reachable from the tag's vertex without entering *)
+(* an ignored array axis gets the tag.  Reduction descriptors contribute   *)
+(* no tag edges and are never excluded.                                    *)
 (***************************************************************************)
 ImplOf(mu, ig, rd, tags) ==
   LET E2 == mu \cup {e \in Vars \X Tags : e[1] \notin rd /\ e[2] \in tags[e[1]]}
